@@ -474,8 +474,8 @@ func keys(m map[string]int) []string {
 
 func init() {
 	core.Register(&core.Prop{
-		ID: "C15",
-		Rule: "exhaustive: every directed graph (self loops included) on n<=3 modules (1+16+512 graphs), each compiled under 2 schedule configurations; rapid: dense random digraphs n<=7, layered DAGs n<=24 with optional back edges, wide fan-outs (2..14 children with private sub-imports, up to 40 modules) and chains with chords, each under 2-3 generated schedules (GOMAXPROCS in {1,2,4,16} x per-module delays at the enter/deps/spawn hook points). Edges are rendered as plain, aliased or doubly-aliased imports; every module exports V() = w_i + sum of its imports' V(). Oracle: a cycle reachable from the entry => exit != 0 with a 'circular import' error, no executable, no hang (25 s); otherwise it compiles, every reachable module is parsed exactly once (debug trace), and (sampled: 1/3 of rapid cases, 1/16 of exhaustive) the native executable prints the value computed from the graph with one .ssa per module. non-trivial = a reachable module with in-degree >= 2, or a cycle other than the entry importing itself; distinct = hash of (graph, edge kinds, schedules)",
+		ID:         "C15",
+		Rule:       "exhaustive: every directed graph (self loops included) on n<=3 modules (1+16+512 graphs), each compiled under 2 schedule configurations; rapid: dense random digraphs n<=7, layered DAGs n<=24 with optional back edges, wide fan-outs (2..14 children with private sub-imports, up to 40 modules) and chains with chords, each under 2-3 generated schedules (GOMAXPROCS in {1,2,4,16} x per-module delays at the enter/deps/spawn hook points). Edges are rendered as plain, aliased or doubly-aliased imports; every module exports V() = w_i + sum of its imports' V(). Oracle: a cycle reachable from the entry => exit != 0 with a 'circular import' error, no executable, no hang (25 s); otherwise it compiles, every reachable module is parsed exactly once (debug trace), and (sampled: 1/3 of rapid cases, 1/16 of exhaustive) the native executable prints the value computed from the graph with one .ssa per module. non-trivial = a reachable module with in-degree >= 2, or a cycle other than the entry importing itself; distinct = hash of (graph, edge kinds, schedules)",
 		Gen:        c15Gen,
 		New:        func() any { return &c15Case{} },
 		Check:      c15Check,
